@@ -22,6 +22,8 @@ func init() {
 			ruleC07R3(r)
 			ruleDispatchLoopsSurvive(r, "R4", "/wire", "/iscp")
 			ruleC07R5(r)
+			ruleC07R6(r, newLockEngine(r.P))
+			ruleC07R7(r)
 			r.borrow("C08", func() { ruleD1(r) }) // a reply abandoned by one stream must not stall the router of all
 		},
 	})
@@ -750,4 +752,103 @@ func derivesFrom(v, src ssa.Value, depth int) bool {
 		}
 	}
 	return false
+}
+
+// ruleC07R6: the routing tables of the wire connection are shared by every stream; their locks are held for table
+// operations only. A transport write (or read) made while such a lock is held keeps the lock for as long as the link
+// stalls: every open, resume and close of any other stream then waits for the write lock, and — sync.RWMutex queues
+// new readers behind a waiting writer — so does every other stream's send and the ack router.
+func ruleC07R6(r *Run, le *LockEngine) {
+	r.Begin("R6", "no transport I/O under a routing-table lock: in package wire no interface call of Write/WriteUnreliable/Read is made while the mutex of clientUpstreams, clientDownstreams or the reply table (ClientConn.mu) is held", 5)
+	p := r.P
+	tableLocks := map[*types.Var]string{}
+	for _, g := range guardTable {
+		if !strings.HasPrefix(g.Owner, "/wire.") || len(g.Lock) != 1 {
+			continue
+		}
+		i := strings.LastIndexByte(g.Owner, '.')
+		if f := p.Field(g.Owner[:i], g.Owner[i+1:], g.Lock[0]); f != nil {
+			tableLocks[f] = g.Owner + "." + g.Lock[0]
+		}
+	}
+	if len(tableLocks) == 0 {
+		r.Undecided("table locks", "no lock of a wire routing table resolved")
+		return
+	}
+	io := map[string]bool{"Write": true, "WriteUnreliable": true, "Read": true, "ReadUnreliable": true}
+	for _, fn := range p.Funcs {
+		if fnPkgPath(fn) != modPath+"/wire" || fn.Blocks == nil {
+			continue
+		}
+		name := fnName(fn)
+		fi := le.Info(fn)
+		k := 0
+		allInstrs(fn, func(ins ssa.Instruction) {
+			c, ok := ins.(*ssa.Call)
+			if !ok || !c.Call.IsInvoke() || !io[c.Call.Method.Name()] {
+				return
+			}
+			k++
+			bad := ""
+			for key := range le.HeldAt(c) {
+				if f := fi.keyField[key]; f != nil {
+					if nm, isT := tableLocks[f]; isT {
+						bad = nm
+					}
+				}
+			}
+			r.Check(fmt.Sprintf("%s %s#%d outside the table locks", name, c.Call.Method.Name(), k), bad == "", posOf(p, c), name, "the transport call is made while "+bad+" is held: a stalled link keeps the routing table locked for every stream of the connection")
+		})
+	}
+}
+
+// ruleC07R7: one alias per downstream. The alias a stream acknowledges and resumes under is the one it subscribed and
+// opened with: the value stored in Downstream.idAlias when the stream is created is the result of the same
+// AliasGenerator.Next() call that feeds the open request, not a later reading of the shared generator (another
+// stream opened in between has moved it on).
+func ruleC07R7(r *Run) {
+	r.Begin("R7", "one alias per downstream: where package iscp creates a Downstream, idAlias derives from a call of AliasGenerator.Next (through helper results and parameters) and from no other reading of the connection's shared generator; DownstreamOpenRequest.DesiredStreamIDAlias derives from Next as well", 2)
+	p := r.P
+	d := r.named("/iscp", "Downstream")
+	if d == nil {
+		return
+	}
+	n := 0
+	for _, lit := range p.allLiterals(d) {
+		if fnPkgPath(lit.Fn) != modPath+"/iscp" {
+			continue
+		}
+		v, has := lit.Fields["idAlias"]
+		if !has {
+			continue
+		}
+		n++
+		name := fnName(lit.Fn)
+		l := p.Leaves(v, provOpts{IntoCallees: true, ParamDepth: 1})
+		okNext := hasLeaf(l, "call:/wire.AliasGenerator.Next")
+		other := ""
+		for _, x := range l {
+			if strings.HasPrefix(x, "call:/wire.AliasGenerator.") && x != "call:/wire.AliasGenerator.Next" {
+				other = x
+			}
+		}
+		r.Check(name+" idAlias is the issued alias", okNext && other == "", p.pos(lit.Alloc.Pos()), name, "idAlias <- ["+joinLeaves(l)+"]: the alias must be the very value Next() returned for this stream ("+other+" reads the generator shared by all streams of the connection at a later moment)")
+	}
+	req := r.named("/message", "DownstreamOpenRequest")
+	if req != nil {
+		for _, lit := range p.allLiterals(req) {
+			if fnPkgPath(lit.Fn) != modPath+"/iscp" {
+				continue
+			}
+			if v, has := lit.Fields["DesiredStreamIDAlias"]; has {
+				n++
+				name := fnName(lit.Fn)
+				l := p.Leaves(v, provOpts{IntoCallees: true, ParamDepth: 1})
+				r.Check(name+" requests the issued alias", hasLeaf(l, "call:/wire.AliasGenerator.Next"), p.pos(lit.Alloc.Pos()), name, "DesiredStreamIDAlias <- ["+joinLeaves(l)+"]")
+			}
+		}
+	}
+	if n == 0 {
+		r.Undecided("Downstream construction", "no Downstream literal with idAlias in package iscp")
+	}
 }
